@@ -718,6 +718,13 @@ func genSign(rng *h.Rng, thorough bool, emit func(string)) {
 	for i := 0; i < nkeys/2; i++ {
 		xs = append(xs, rng.Big(ell))
 	}
+	// unreduced private scalars as scalar.UnmarshalBinary stores them, top byte on both sides of the contract
+	// a[31] <= 127 of the window recoding and of the first value (0x88) whose top digit leaves the table (F21)
+	for _, top := range []int64{0x7f, 0x80, 0x87, 0x88, 0xc0, 0xff} {
+		x := rng.Big(pow2(248))
+		xs = append(xs, x.Add(x, new(big.Int).Lsh(big.NewInt(top), 248)))
+	}
+	xs = append(xs, new(big.Int).Sub(pow2(256), one), pow2(255))
 	for _, x := range xs {
 		for _, m := range messages(rng, false) {
 			emit(fmt.Sprintf("svx %s %s %s", hx32(x), nonce(rng), m))
